@@ -12,7 +12,8 @@
    and gid); which of them an ownership test consults is a fact observed from the source (GenPath's
    *_owner_id).  Files the daemon creates: "create" is an operation on the state of one directory entry
    (absent / file of some type, owner, mode / symlink to a file / dangling symlink), composed of unlink(2)
-   and open(2)/bind(2) as the source orders them (GenPath's *_how, observed with strace).
+   and open(2)/bind(2) as the source orders them (GenPath's *_how, observed with strace).  Whether a site's
+   directory walk runs at all is a function of the site and of what is at the file's name (GenPath's *_walk).
 
    A directory chain is the list of lstat() records of the directories that path_is_secure visits:
    the canonical directory first, then each parent, "/" last.  Modes are st_mode land 07777. *)
@@ -88,6 +89,19 @@ Record fobs := mko { o_symlink : bool; o_stat : option fstat }.
 Definition is_reg (s : fstat) : bool := match f_type s with TReg => true | _ => false end.
 Definition is_dir (s : fstat) : bool := match f_type s with TDir => true | _ => false end.
 
+(* ---- which directory walks run: a function of the site AND of what is at the file's name ---- *)
+Inductive fsite := FKey | FSeed | FLog | FSock | FPid.
+Definition site_flags (s : fsite) : N :=
+  match s with FKey => key_flags | FSeed => seed_flags | FLog => log_flags | FSock => sock_flags | FPid => pid_flags end.
+(* GenPath <site>_walk = (walk runs when nothing is at the name, walk runs when a file is there), observed *)
+Definition walk_fact (s : fsite) : bool * bool :=
+  match s with FKey => key_walk | FSeed => seed_walk | FLog => log_walk | FSock => sock_walk | FPid => pid_walk end.
+Definition walks (s : fsite) (leaf : fobs) : bool :=
+  match o_stat leaf with Some _ => snd (walk_fact s) | None => fst (walk_fact s) end.
+(* the verdict of site s on its directory chain, given the prior state of the leaf *)
+Definition dir_verdict (s : fsite) (leaf : fobs) (id : ident) (tg : N) (chain : list dstat) : verdict :=
+  if walks s leaf then path_secure_as id tg (site_flags s) chain else Secure.
+
 Inductive why :=
 | WMissing | WType | WSymlink | WOwner | WGroup | WOther
 | WDir (i : nat) (r : reason) | WAccess (i : nat) | WLock | WHang
@@ -112,7 +126,7 @@ Definition keyfile_check (force : bool) (id : ident) (tg : N) (o : fobs) (chain 
     else if negb (f_uid s =? pick_uid key_owner_id id) then Some WOwner
     else if has (f_mode s) grp_rw then Some WGroup
     else if has (f_mode s) oth_rw then Some WOther
-    else dir_why (path_secure_as id tg key_flags chain)
+    else dir_why (dir_verdict FKey o id tg chain)
   end.
 
 (* random.c _random_read_seed: (bad, used) — bad = returns -1 (caller unlinks), used = bytes reach the pool.
@@ -143,7 +157,7 @@ Record seedres := mks { sr_refuse : option why;   (* start refused (seed directo
 
 (* random.c _random_read_entropy_from_file + random_init + munged.c main *)
 Definition seed_step (force : bool) (id : ident) (tg : N) (o : fobs) (chain : list dstat) : seedres :=
-  let v := path_secure_as id tg seed_flags chain in
+  let v := dir_verdict FSeed o id tg chain in
   match v, force with
   | Insecure i r, false => mks (Some (WDir i r)) false false false false
   | _, _ =>
@@ -167,7 +181,7 @@ Definition logfile_check (force : bool) (id : ident) (tg : N) (o : fobs) (chain 
                 else None
               end) with
        | Some w => Some w
-       | None => if force then None else dir_why (path_secure_as id tg log_flags chain)
+       | None => if force then None else dir_why (dir_verdict FLog o id tg chain)
        end.
 
 (* ---- created files: mode arithmetic ---- *)
@@ -322,15 +336,15 @@ Definition open_why (r : ores) : option why :=
   match r with OOpened _ _ => None | OFail => Some WCreate | OBlock => Some WHang end.
 
 (* munged.c sock_create up to the lock *)
-Definition sock_check (force : bool) (id : ident) (tg : N) (chain : list dstat) : option why :=
+Definition sock_check (force : bool) (id : ident) (tg : N) (leaf : fobs) (chain : list dstat) : option why :=
   if force then None
-  else match dir_why (path_secure_as id tg sock_flags chain) with
+  else match dir_why (dir_verdict FSock leaf id tg chain) with
        | Some w => Some w
        | None => match path_is_accessible chain with Some i => Some (WAccess i) | None => None end
        end.
 
-Definition pid_check (force : bool) (id : ident) (tg : N) (chain : list dstat) : option why :=
-  if force then None else dir_why (path_secure_as id tg pid_flags chain).
+Definition pid_check (force : bool) (id : ident) (tg : N) (leaf : fobs) (chain : list dstat) : option why :=
+  if force then None else dir_why (dir_verdict FPid leaf id tg chain).
 
 (* ---- the whole start-up, in the order of main() ---- *)
 Inductive site := SLog | SSeed | SKey | SSock | SLock | SBind | SPid.
@@ -365,10 +379,10 @@ Definition startup (c : config) : option (site * why) :=
       tag SSeed (sr_refuse (seed_of c));
       tag SSeed (if sr_hang (seed_of c) then Some WHang else None);
       tag SKey (keyfile_check (c_force c) (c_id c) (c_tg c) (c_key c) (c_keydir c));
-      tag SSock (sock_check (c_force c) (c_id c) (c_tg c) (c_sockdir c));
+      tag SSock (sock_check (c_force c) (c_id c) (c_tg c) (c_sock c) (c_sockdir c));
       tag SLock (lock_why (lock_of c));
       tag SBind (match bind_of c with None => Some WExists | Some _ => None end);
-      tag SPid (pid_check (c_force c) (c_id c) (c_tg c) (c_piddir c));
+      tag SPid (pid_check (c_force c) (c_id c) (c_tg c) (c_pid c) (c_piddir c));
       tag SPid (if w_hang (pid_of c) then Some WHang else None) ].
 
 (* the entries a successful start leaves behind (what lstat/stat report at each name) *)
